@@ -5,10 +5,51 @@ import os
 
 VERIF = os.path.dirname(os.path.dirname(os.path.abspath(__file__)))
 
+HIST = 'trusted base: the harness in /verif/harness (ledger allocator, instrumented value types, model, interpreter), clang++ 14 with ASan/UBSan, rapidcheck; input domain limited to the documented preconditions D1-D16 (DESIGN.md 0.1)'
 CHECKS = {
-    'C01': dict(level='exploration', technique='stateful property-based testing (rapidcheck) against a reference model',
-                text='rapidcheck-generated operation histories over ~60 parameter lists, compared with a std::vector-of-tuples model after every operation through every access path; failures shrink to minimal programs. Exploration: shows the property on the generated histories, cannot prove it for all.',
-                design='2 C01'),
+    'C01': dict(level='exploration', technique='stateful property-based testing (rapidcheck) against a std::vector-of-tuples reference model',
+                text='generated operation histories over ~60 parameter lists (curated + seeded random), compared with a reference model after every operation through every access path; failures shrink to minimal programs. Exploration: decides the property on the generated histories only.', design='2 C01'),
+    'C02': dict(level='exploration', technique='stateful property-based testing with a bounds oracle (ledger allocator block ranges, poisoned guard zones under ASan)',
+                text='saturating histories (capacity and byte budget exhausted with generated size compositions) on alignment-heavy lists; every object address must lie inside the block the allocator handed out. Exploration of size distributions, not a proof of the worst-case padding bound.', design='2 C02'),
+    'C03': dict(level='exploration', technique='stateful property-based testing with an address-residue oracle on exactly-aligned allocator blocks',
+                text='histories incl. relocation (erase, reserve, copy, move, element extraction) on lists with non-monotone AlignAs; every AlignAs object address is checked modulo A after every op; block bases are aligned to exactly the storage alignment.', design='2 C03'),
+    'C04': dict(level='exploration', technique='stateful property-based testing with an interval (order / containment / overlap / span length) oracle',
+                text='after every op the extents of all fields of all elements are collected and checked for order, disjointness, containment and span lengths against the model.', design='2 C04'),
+    'C05': dict(level='exploration', technique='differential testing against an independent greedy layout model plus metamorphic footprint bound (ledger byte counts)',
+                text='field addresses are compared with an independent greedy layout; footprints after reserve/copy/move/assignment are bounded by max(before, source, fresh). One listed known finding (KF-1) is reported, not suppressed silently.', design='2 C05'),
+    'C06': dict(level='exploration', technique='stateful property-based testing with instrumented value types (address-keyed lifetime registry, self-pointer canary) and a live-set sweep',
+                text='every construction/destruction/assignment of Tracked objects is checked when it happens; after every op live objects in container memory must equal the objects reachable through the API.', design='2 C06'),
+    'C07': dict(level='exploration', technique='stateful property-based testing with a ledger allocator (allocate/deallocate pairing, sizes, arenas, leak check at end of case)',
+                text='every block must be returned exactly once with its size through an equal allocator; nothing may remain allocated after all containers are destroyed.', design='2 C07'),
+    'C08': dict(level='exploration', technique='property-based testing over the matrix of 8 propagation-trait combinations x is_always_equal with a predicted-allocator oracle',
+                text='get_allocator() after every copy/move/swap is compared with the arena predicted from std::allocator_traits; ownership of every data block is checked against the owning container.', design='2 C08'),
+    'C09': dict(level='exploration', technique='stateful property-based testing against a value-semantics reference model (independent model twins per vector)',
+                text='copy/move/swap/self-assignment histories with later mutation of either operand; all vectors are compared with their model twins after every op.', design='2 C09'),
+    'C10': dict(level='exploration', technique='stateful property-based testing with before/after snapshots around every reserve',
+                text='reserve-dominated histories on empty, partly filled and full vectors; size, values, fixed sizes, capacity monotonicity, no-op behaviour and allocator traffic are compared with the snapshot.', design='2 C10'),
+    'C11': dict(level='exploration', technique='stateful property-based testing: writes through one access path read back through all others; std algorithms compared with the same algorithm on the model',
+                text='reference assignment/swap/iter_swap/rotate/reverse/swap_ranges and a full iterator arithmetic table are compared with the model after every op.', design='2 C11'),
+    'C12': dict(level='exploration', technique='stateful property-based testing against element model twins, with ledger-based storage-independence check',
+                text='ContiguousElement construction/assignment/swap histories with equal and unequal allocators and different varying sizes; elements and vectors are compared with independent models.', design='2 C12'),
+    'C13': dict(level='exploration', technique='property-based testing against model equality plus a metamorphic re-run on memory with different junk contents',
+                text='==/!= in all operand-kind combinations must equal model equality and must not change when the same program runs on differently pre-filled memory.', design='2 C13'),
+    'C14': dict(level='exploration', technique='property-based testing of algebraic laws (strict-order axioms, derived operators, operand-kind invariance) plus junk-metamorphic re-run',
+                text='laws are checked on generated pairs/triples over a 3-value domain; vector< is compared with std::lexicographical_compare under the element-level <.', design='2 C14'),
+    'C15': dict(level='exploration', technique='property-based testing over a generated matrix (source type x stored type x source form x parameter kind) with a per-item conversion oracle', engine='rapidcheck (engine_c15)',
+                text='for every cell rapidcheck generates source values and lengths; stored[i] must equal static_cast<T>(src[i]); copy/move counts and consumed-item counts are checked.', design='2 C15',
+                note='trusted base: harness/c15.hpp value types and forms, clang++ 14 ASan/UBSan, rapidcheck'),
+    'C16': dict(level='exploration', technique='stateful property-based testing with address and allocation-counter snapshots around every operation',
+                text='addresses of all surviving objects, data_begin(), capacity() and the ledger counters are compared before/after each op according to the kind of op.', design='2 C16'),
+    'C17': dict(level='fault_enumeration', technique='property-based generation of (history, target operation) with exhaustive fail-the-k-th-allocation enumeration per case in forked children',
+                text='for every generated case every allocation of the target operation is failed in turn (k = 1..m); the oracle checks no termination, no leak/double free, exactly-once destruction, unchanged sources and usable operands.', design='2 C17'),
+    'C18': dict(level='exploration', technique='stateful property-based testing of empty-state histories with junk-controlled memory and a metamorphic re-run',
+                text='all ways of becoming empty followed by all operations applicable to an empty vector, under ASan with poisoned guards, executed twice with different memory junk.', design='2 C18'),
+    'C19': dict(level='exploration', technique='property-based generation of multi-threaded reader schedules executed under ThreadSanitizer with a precomputed-result oracle', engine='rapidcheck (engine_c19) + TSan',
+                text='generated schedules of const operations from up to 16 threads on shared vectors/elements; ThreadSanitizer must report no race and every thread must reproduce the single-threaded results.', design='2 C19',
+                note='trusted base: ThreadSanitizer (clang 14), harness/c19.hpp; dynamic race detection covers executed paths only'),
+    'C20': dict(level='exploration', technique='generated instantiation matrix (operation x parameter list x allocator kind x toolchain) with the compiler as oracle, failing groups bisected', engine='python generator + clang++/g++ -fsyntax-only',
+                text='every documented operation is instantiated for generated lists of every category and four allocator kinds; a requirement predicate over the value types decides which cells must compile. The thorough tier enumerates the whole generated matrix.', design='2 C20',
+                note='trusted base: gen/units_c20.py (operation list and requirement predicate), clang++ 14 / g++ 12'),
 }
 
 NOT_YET = 'check under construction in this session; not claimed until it is built and validated'
@@ -29,15 +70,18 @@ def main():
             'replay_cmd_template': './check --replay {path}',
             'engine': c.get('engine', 'rapidcheck'),
             'level_claimed': {'category': c['level'], 'text': c['text'], 'design_ref': 'DESIGN.md section ' + c['design']},
-            'level_note': c.get('note', 'trusted base: the harness in /verif/harness (ledger allocator, instrumented value types, model, interpreter), clang++ 14 with ASan/UBSan, rapidcheck; input domain limited to the documented preconditions D1-D15 (DESIGN.md 0.1)'),
+            'level_note': c.get('note', HIST),
             'technique': c['technique'],
         })
     m = {
         'version': 1,
         'setup_cmd': './setup.sh',
-        'hooks': {'guard': 'CNTGS_VERIF', 'enable': 'no source hooks are needed: all observation points are reachable through the public API, the allocator parameter and the value types; checks compile the harness against /repo/src as it is', 'baseline_off_cmd': 'cmake --build /repo/_build -j16 && ctest --test-dir /repo/_build -j8 --timeout 900', 'source_commits': [], 'add_only': True},
+        'hooks': {'guard': 'CNTGS_VERIF', 'enable': 'no source hooks are needed: all observation points are reachable through the public API, the allocator parameter and the value types; checks compile the harness against /repo/src as it is', 'baseline_off_cmd': '/verif/tools/baseline.sh', 'source_commits': [], 'add_only': True},
         'engines': [
-            {'name': 'engine_rc', 'path': 'harness/engine_rc.cpp', 'serves_properties': sorted(CHECKS), 'kind_free_text': 'rapidcheck program generator + shrinker, linked with one generated configuration TU per parameter list'},
+            {'name': 'engine_rc', 'path': 'harness/engine_rc.cpp', 'serves_properties': [p for p in sorted(CHECKS) if p not in ('C15', 'C19', 'C20')], 'kind_free_text': 'rapidcheck program generator + shrinker (fork isolation for crash shrinking, fault enumeration for C17), linked with one generated configuration TU per parameter list'},
+            {'name': 'engine_c15', 'path': 'harness/engine_c15.cpp', 'serves_properties': ['C15'], 'kind_free_text': 'rapidcheck over the generated source-form matrix'},
+            {'name': 'engine_c19', 'path': 'harness/engine_c19.cpp', 'serves_properties': ['C19'], 'kind_free_text': 'rapidcheck schedule generator, ThreadSanitizer build'},
+            {'name': 'units_c20', 'path': 'gen/units_c20.py', 'serves_properties': ['C20'], 'kind_free_text': 'instantiation-matrix generator, compilers as oracle'},
         ],
         'checks': checks,
         'notes': 'see DESIGN.md; ./check <ID> --tier quick|thorough; ./check --replay <file>',
